@@ -93,12 +93,15 @@ theorem C01_finding_variant_empty_multidim :
       m = .variant 0x98 0 0 none ⟨6, 2⟩ (.slice false []) ∧ wt env 3 .variant m = false :=
   ⟨_, _, rfl, rfl, rfl, rfl, rfl⟩
 
-/-- `[][]byte{{1},{2}}`: `Variant.encode` hands the whole `[][]byte` to `encodeValue`, which has no case for it:
-    the elements are not written and decoding runs out of bytes -/
-theorem C01_finding_variant_bytestring_array :
-    ∃ m, newVariant ⟨15, 1⟩ (.slice false [.bytes (some [1]), .bytes (some [2])]) = .ok m ∧
-      encode env 3 .variant m = .ok [0x8f, 2, 0, 0, 0] ∧ decode env 3 .variant ⟨[0x8f, 2, 0, 0, 0], 0⟩ = .fail .err ∧
-      wt env 3 .variant m = false :=
+/-- repaired (was finding C01.variant-bytestring-array): `[][]byte{{1},{2,3}}`, an array of ByteStrings of different
+    lengths, is accepted by `NewVariant`, lies in the domain, and round-trips.  `Variant.encode` used to hand the whole
+    `[][]byte` to `encodeValue`, which wrote no element (`8f02000000`), and `sliceDim` refused ByteStrings of
+    different lengths as an unbalanced matrix. -/
+theorem C01_fixed_variant_bytestring_array :
+    ∃ m, newVariant ⟨15, 1⟩ (.slice false [.bytes (some [1]), .bytes (some [2, 3])]) = .ok m ∧
+      wt env 3 .variant m = true ∧
+      encode env 3 .variant m = .ok [0x8f, 2, 0, 0, 0, 1, 0, 0, 0, 1, 2, 0, 0, 0, 2, 3] ∧
+      decode env 3 .variant ⟨[0x8f, 2, 0, 0, 0, 1, 0, 0, 0, 1, 2, 0, 0, 0, 2, 3], 0⟩ = .ok m ⟨[], 0⟩ :=
   ⟨_, rfl, rfl, rfl, rfl⟩
 
 /-- `[][][]int32{{{1},{2}},{{3,4},{5,6}}}`: `sliceDim` only follows the first element of every level, so a ragged
@@ -111,15 +114,13 @@ theorem C01_finding_variant_ragged :
       wt env 4 .variant m = false :=
   ⟨_, _, rfl, rfl, rfl, rfl⟩
 
-/-- `[][]int32{nil, nil}`: `sliceDim` multiplies the "nil" count −1 of the inner slice by the outer length: array
-    length −2.  `Encode` writes `86 fe ff ff ff`, which `Variant.Decode` rejects (before the repair of
-    C02.variant-neg-len it panicked on these bytes, produced by the library's own constructor and encoder) -/
-theorem C01_finding_variant_nil_inner_slice :
-    ∃ m, newVariant ⟨6, 2⟩ (.slice false [.slice true [], .slice true []]) = .ok m ∧
-      encode env 3 .variant m = .ok [0x86, 0xfe, 0xff, 0xff, 0xff] ∧
-      decode env 3 .variant ⟨[0x86, 0xfe, 0xff, 0xff, 0xff], 0⟩ = .fail .err ∧
-      wt env 3 .variant m = false :=
-  ⟨_, rfl, rfl, rfl, rfl⟩
+/-- repaired (was finding C01.variant-nil-inner-slice): `NewVariant([][]int32{nil, nil})` is refused.  `sliceDim` used
+    to multiply the "nil" count −1 of the inner slice by the outer length (array length −2), and `Encode` wrote
+    `86 fe ff ff ff`, bytes no decoder accepts (ours panicked on them until C02.variant-neg-len was repaired). -/
+theorem C01_fixed_variant_nil_inner_slice :
+    newVariant ⟨6, 2⟩ (.slice false [.slice true [], .slice true []]) = .error .err ∧
+    newVariant ⟨12, 3⟩ (.slice false [.slice false [.slice true []], .slice false [.slice true []]]) = .error .err :=
+  ⟨rfl, rfl⟩
 
 /-- an extension object whose value encodes to zero bytes (`&ua.DataTypeDefinition{}`, registered under i=121, has
     no fields): `ExtensionObject.Decode` treats body length 0 as "no value" and returns `Value == nil` -/
